@@ -2,15 +2,15 @@ package props
 
 import (
 	"fmt"
-	"path"
-	"regexp"
-	"time"
 	"go/ast"
 	"go/parser"
 	"go/token"
+	"path"
+	"regexp"
 	"sort"
 	"strings"
 	"testing"
+	"time"
 
 	"pgregory.net/rapid"
 
@@ -437,7 +437,7 @@ func TestC01(t *testing.T) {
 	t.Run("layouts", func(t *testing.T) {
 		rapid.Check(t, func(rt *rapid.T) {
 			dir := s.Scratch()
-			o := gen.LayoutOpts{Layouts: true, AbsRoot: dir, AllowCwd: true, SharedFile: true, Vars: true, MaxConvs: 5, SamePackage: rapid.Bool().Draw(rt, "same-package")}
+			o := gen.LayoutOpts{Layouts: true, AbsRoot: dir, AllowCwd: true, SharedFile: true, Vars: true, MaxConvs: 5, SamePackage: rapid.Bool().Draw(rt, "same-package"), ExplicitPatterns: true}
 			tree := gen.Layout(rt, o)
 			msg, note := c01Layout(s, tree, dir)
 			s.Eval(1)
@@ -558,7 +558,7 @@ func c01Layout(s *vh.Session, tree *gen.Tree, dir string) (string, string) {
 			return "", "discard: two package names configured for one directory"
 		}
 	}
-	run := s.RunCLI(dir, "gen", "./...")
+	run := s.RunCLI(dir, append([]string{"gen"}, tree.CLIPatterns()...)...)
 	if run.TimedOut {
 		return "", "INFRA: CLI timed out"
 	}
